@@ -173,11 +173,12 @@ theorem C07_bound_to_place (s s' : RStore) (cand : RoomNode) (h : accept Defects
     exact ⟨(prepareWithHistory_sound hprep).groupEdges rfl, (prepareWithHistory_sound hprep).roomRow rfl⟩
 
 /-- **C07_partial.** On every candidate that passes `candGuard` = `candGuardD Defects.asImplemented` — while
-    `placingEdgeUnchecked` is on: every entry is placed by a reference signed by its author with its list's label
-    and its owner's entity, every group is attached by a reference signed by an admin; nothing once the switch is
-    off — the code as written decides exactly as the intended checks do, so sections 1 and 2 apply to it. What is
-    missing relative to the full statement is exactly the `placingEdge` witnesses of section 3 whose switch is still
-    on (and, whatever the switches, the order of same-date entries: `C07_breaks_sameDateReorder`). -/
+    `placingAuthorUnchecked` is on: every entry is placed by a reference signed by the entry's own author
+    (`placingOk`); while `placingEdgeUnchecked` is on: moreover every placing reference carries its list's label and its
+    owner's entity and every group is attached by a reference signed by an admin (`placingGuard`) — the code as written
+    decides exactly as the intended checks do, so sections 1 and 2 apply to it. What is missing relative to the full
+    statement is exactly the `placingEdge` witnesses of section 3 that are still accepted under the switches of
+    `Defects.asImplemented` (and, whatever the switches, the order of same-date entries: `C07_breaks_sameDateReorder`). -/
 theorem C07_partial (s : RStore) (cand : RoomNode) (g : candGuard s cand = true) :
     accept Defects.asImplemented s cand = accept Defects.none s cand :=
   accept_congr g
@@ -222,14 +223,20 @@ def w0 : RStore := stateOf (accept Defects.none emptyStore room10)
 def loaded (s : RStore) (id : Nat) : RoomT :=
   (s.rooms.find? (·.id = id)).getD (Discret.Room.Room.empty 0 0)
 
+/-- the switches after findings/C07-placing-references-v2.patch: labels, source entities and the references
+    room → group are checked, the author of an entry's placing reference is not (pinned by `room_node::tests::invalid`) -/
+def afterLabelFix : Defects := { Defects.beforeFix with placingEdgeUnchecked := false }
+
 /-- **cross-list replay (#22).** The entry "key 2 is a *user* of group 102", signed by the admin, is
     listed among the *admins* with a placing reference signed by key 6 (anybody): accepted, key 2 is
-    now an admin of the room. The intended check refuses the candidate. -/
+    now an admin of the room — also once labels are checked (`afterLabelFix`): the reference carries the admins' label,
+    only its author is wrong. The intended check refuses the candidate. -/
 theorem C07_breaks_placingEdge_crossList :
     let cand := { room10 with adminNodes := room10.adminNodes ++ [row 105 102 100 0 (.user 2 true)],
                               adminEdges := room10.adminEdges ++ [edge 10 100 32 105 100 6] }
     (loaded w0 10).isAdmin 2 200 = false ∧
     (loaded (stateOf (accept Defects.beforeFix w0 cand)) 10).isAdmin 2 200 = true ∧
+    (loaded (stateOf (accept afterLabelFix w0 cand)) 10).isAdmin 2 200 = true ∧
     accept Defects.none w0 cand = .err .inconsistent := by
   decide
 
@@ -243,12 +250,13 @@ def room40 : RoomNode :=
 def w1 : RStore := stateOf (accept Defects.none w0 room40)
 
 /-- **cross-room replay (#22).** The admin entry of room 40 is listed among the admins of room 10
-    with a reference signed by key 6: key 6 becomes an admin of room 10. -/
+    with a reference signed by key 6: key 6 becomes an admin of room 10 (also under `afterLabelFix`). -/
 theorem C07_breaks_placingEdge_crossRoom :
     let cand := { room10 with adminNodes := room10.adminNodes ++ [row 201 102 300 0 (.user 6 true)],
                               adminEdges := room10.adminEdges ++ [edge 10 100 32 201 300 6] }
     (loaded w1 10).isAdmin 6 400 = false ∧
     (loaded (stateOf (accept Defects.beforeFix w1 cand)) 10).isAdmin 6 400 = true ∧
+    (loaded (stateOf (accept afterLabelFix w1 cand)) 10).isAdmin 6 400 = true ∧
     accept Defects.none w1 cand = .err .inconsistent := by
   decide
 
@@ -265,6 +273,7 @@ theorem C07_breaks_placingEdge_label :
     let s2 := stateOf (accept Defects.beforeFix s1 cand2)
     (loaded s1 10).auths.any (·.canAdminUsers 5 400) = false ∧
     (loaded s2 10).auths.any (·.canAdminUsers 5 400) = true ∧
+    accept afterLabelFix w0 cand1 = .err .inconsistent ∧
     accept Defects.none w0 cand1 = .err .inconsistent := by
   decide
 
@@ -284,6 +293,7 @@ theorem C07_breaks_placingEdge_groupReplay :
                               authEdges := room10.authEdges ++ [edge 10 100 33 402 100 6] }
     (loaded w0 10).can 6 1 400 .mutateAll = false ∧
     (loaded (stateOf (accept Defects.beforeFix w0 cand)) 10).can 6 1 400 .mutateAll = true ∧
+    accept afterLabelFix w0 cand = .err .notAuthorised ∧
     accept Defects.none w0 cand = .err .notAuthorised := by
   decide
 
